@@ -2,7 +2,7 @@
 //! Engine E4: for each scenario the fault-free run records N stream calls; for every k < N the
 //! execution in which call k and all later calls fail is run (exhaustive in k).
 use super::scen::*;
-use crate::env::{DefaultChooser, EofFrom, FailFromKind, Kind};
+use crate::env::{DefaultChooser, EofFrom, FailFromStyled, Kind};
 use std::io::ErrorKind;
 use crate::report::Report;
 use rayon::prelude::*;
@@ -54,7 +54,7 @@ pub fn judge_fault(role: Role, base: &Outcome, o: &Outcome) -> Option<(&'static 
 
 pub fn run(tier: &str) -> i32 {
     let rep = Report::new("C15", tier, "fault_enumeration");
-    rep.rule("for each scenario (header/directory/archive read and write, lookups, re-write over a failing backing reader, read_directories/write_directories, codec adapters; 4 compressions; sync and async; leaf-spill writers) the fault-free run records N stream calls (reads, writes, seeks, flushes, closes - including those issued from a codec's Drop); every k in [0,N) is executed with call k and all later calls failing, once per error kind in {Other, UnexpectedEof, BrokenPipe, InvalidData, TimedOut, WouldBlock} (Interrupted is excluded: std retries it forever on a fail-stop stream), and once with the source simply ending at call k (reads deliver 0 bytes); oracle: Err, or Ok only with the complete image/value; a panic is a violation; non-trivial = every faulty execution; distinct = (scenario, k)");
+    rep.rule("for each scenario (header/directory/archive read and write, lookups, re-write over a failing backing reader, read_directories/write_directories, codec adapters; 4 compressions; sync and async; leaf-spill writers) the fault-free run records N stream calls (reads, writes, seeks, flushes, closes - including those issued from a codec's Drop); every k in [0,N) is executed with call k and all later calls failing, once per error kind in {Other, UnexpectedEof, BrokenPipe, InvalidData, TimedOut, WouldBlock} built with a payload, and for Other/UnexpectedEof also as a bare kind without payload and as a raw OS error (EIO) (Interrupted is excluded: std retries it forever on a fail-stop stream), and once with the source simply ending at call k (reads deliver 0 bytes); oracle: Err, or Ok only with the complete image/value; a panic is a violation; non-trivial = every faulty execution; distinct = (scenario, k)");
     rep.assume("fail-stop faults only (sticky); transient faults are outside the property");
     let scs = scenarios(true);
     let mut kinds_hit: std::collections::BTreeMap<String, u64> = Default::default();
@@ -73,14 +73,16 @@ pub fn run(tier: &str) -> i32 {
         }
         // a stream may report a failure with any error kind: the generic one, and the kinds a library is
         // most tempted to treat specially (end of stream, connection loss, bad data)
-        let kinds = [ErrorKind::Other, ErrorKind::UnexpectedEof, ErrorKind::BrokenPipe, ErrorKind::InvalidData, ErrorKind::TimedOut, ErrorKind::WouldBlock];
-        let cases: Vec<(usize, ErrorKind)> = ks.iter().flat_map(|k| kinds.iter().map(move |e| (*k, *e))).collect();
-        let res: Vec<(usize, ErrorKind, Option<(&'static str, String)>, Kind)> = cases
+        // ... and in any representation: with a custom payload (style 0), as a bare kind without payload (1), as a raw OS
+        // error (2, EIO - what a file or socket returns)
+        let kinds = [(ErrorKind::Other, 0u8), (ErrorKind::UnexpectedEof, 0), (ErrorKind::BrokenPipe, 0), (ErrorKind::InvalidData, 0), (ErrorKind::TimedOut, 0), (ErrorKind::WouldBlock, 0), (ErrorKind::Other, 1), (ErrorKind::UnexpectedEof, 1), (ErrorKind::Other, 2)];
+        let cases: Vec<(usize, ErrorKind, u8)> = ks.iter().flat_map(|k| kinds.iter().map(move |e| (*k, e.0, e.1))).collect();
+        let res: Vec<(usize, (ErrorKind, u8), Option<(&'static str, String)>, Kind)> = cases
             .par_iter()
-            .map(|(k, ek)| {
-                let (o, h2) = (sc.run)(Box::new(FailFromKind(*k, *ek)));
+            .map(|(k, ek, st)| {
+                let (o, h2) = (sc.run)(Box::new(FailFromStyled(*k, *ek, *st)));
                 let failed_kind = h2.log().iter().find(|op| op.failed).map(|op| op.kind).unwrap_or(Kind::Flush);
-                (*k, *ek, judge_fault(sc.role, &base, &o), failed_kind)
+                (*k, (*ek, *st), judge_fault(sc.role, &base, &o), failed_kind)
             })
             .collect();
         rep.eval(cases.len() as u64);
@@ -88,10 +90,10 @@ pub fn run(tier: &str) -> i32 {
         rep.count("scenarios", 1);
         rep.count("fault_points", ks.len() as u64);
         rep.count("faulty_executions", cases.len() as u64);
-        for (k, ek, bad, fk) in res {
+        for (k, (ek, st), bad, fk) in res {
             *kinds_hit.entry(format!("{fk:?}")).or_insert(0) += 1;
             if let Some((what, d)) = bad {
-                rep.violation(format!("{what}/{}", sc.name), format!("fault ({ek:?}) from call {k} of {n} ({:?} at offset {}): {d}", log.get(k).map(|o| o.kind), log.get(k).map(|o| o.pos).unwrap_or(0)), json!({"kind":"fault","scenario":sc.name,"k":k,"error_kind":format!("{ek:?}")}));
+                rep.violation(format!("{what}/{}", sc.name), format!("fault ({ek:?}, {}) from call {k} of {n} ({:?} at offset {}): {d}", ["with payload", "bare kind, no payload", "raw OS error EIO"][st as usize % 3], log.get(k).map(|o| o.kind), log.get(k).map(|o| o.pos).unwrap_or(0)), json!({"kind":"fault","scenario":sc.name,"k":k,"error_kind":format!("{ek:?}"),"error_style":st}));
             }
         }
         // the stream ends at call k: nothing more is delivered or accepted. Success is only acceptable with the
@@ -165,6 +167,6 @@ pub fn replay(case: &Value) -> Vec<String> {
         Some("WouldBlock") => ErrorKind::WouldBlock,
         _ => ErrorKind::Other,
     };
-    let (o, _) = (sc.run)(Box::new(FailFromKind(k, ek)));
+    let (o, _) = (sc.run)(Box::new(FailFromStyled(k, ek, case["error_style"].as_u64().unwrap_or(0) as u8)));
     judge_fault(sc.role, &base, &o).map(|(w, d)| format!("{w}: {d}")).into_iter().collect()
 }
